@@ -194,6 +194,10 @@ func ScopeSpecs() []*Spec {
 	sub.ID = "SubA"
 	sn.Props[0].Type = ref("SubA")
 	out = append(out, &Spec{Kind: KScope, Root: "Root", Objects: []*Spec{sn, sub}})
+	// single-property object referring to itself (the lone-value shorthand must not loop)
+	out = append(out, &Spec{Kind: KScope, Root: "L", Objects: []*Spec{
+		{Kind: KObject, ID: "L", Props: []Prop{{Name: "next", Type: ref("L")}}},
+	}})
 	return out
 }
 
